@@ -344,6 +344,47 @@ def run_rows(spec, rec):
                 continue
             probe(head + '\r' + sname + '|' * r.num + 'a^b&c~d', rec, ())
             n += 1
+            if r.kind == 'sequence' or r.datatype == 'varies':
+                # every component (and the first sub-components) of the field's datatype holds something: every leaf class
+                # of the version is built, encoded and validated at least where the tables use it
+                probe(head + '\r' + sname + '|' * r.num + '^'.join('c%d&s&t' % k for k in range(1, 15)), rec, ())
+                rec.count('deep_field_row_probes')
+    # structures with a choice of segments (ORM_O01: OBR | RQD | RQ1 | RXO | ODS | ODT): every alternative, sent once and
+    # twice in a row
+    msgs = tables.messages(v)
+    for name in sorted(msgs):
+        node = msgs[name]
+        if not node.ok or not tables.has_choice_or_pseudo(node) or structref.msh9_for(v, name) is None:
+            continue
+        alts = 1
+        for g in tables.walk_nodes(node):
+            if g.kind in ('GRP', 'MSG') and g.content == 'choice':
+                alts = max(alts, len(g.children))
+        for k in range(min(alts, 8)):
+            for twice in (False, True):
+                lines = []
+
+                def walk(nd):
+                    for c in nd.children:
+                        if not c.ok or c.card[1] == 0 or c.name == 'ANYHL7SEGMENT':
+                            continue
+                        if c.kind == 'SEG':
+                            lines.append(c.name)
+                        elif c.content == 'choice' and c.children:
+                            a = c.children[k % len(c.children)]
+                            if a.kind == 'SEG':
+                                lines.extend([a.name] * (2 if twice else 1))
+                            else:
+                                walk(a)
+                        else:
+                            walk(c)
+                walk(node)
+                try:
+                    text = '\r'.join(structref.msh_line(v, name) if l == 'MSH' else '%s|1|x' % l for l in lines)
+                except Exception:
+                    continue
+                probe(text, rec, ())
+                rec.count('choice_structure_probes')
     rec.count('field_row_probes', n)
     rec.sample({'kind': 'rows', 'version': v, 'example': 'PID|||||a^b&c~d'})
 
